@@ -20,7 +20,8 @@ def tlc_print_lines(spec, cfg, workdir, extra=None, timeout=900, workers=1):
 
 
 def wire_vectors(leg, prop, tier, seed, workdir, report):
-    """C09: complete case table of Wire.tla against remoc's codec (hook H3)."""
+    """C09: complete case table of Wire.tla against remoc's codec (hook H3); C08 uses the decoder half (only_t="bytes":
+    truncated, over-long, unknown, flag-polluted frames and invalid exchanged configurations must be rejected)."""
     lines, states, gen, dt = tlc_print_lines("WireGen.tla", "WireGen.cfg", workdir)
     if len(lines) < 500:
         raise R.ToolError("WireGen produced only %d vectors" % len(lines))
@@ -36,8 +37,10 @@ def wire_vectors(leg, prop, tier, seed, workdir, report):
     kinds = set()
     for l in open(res):
         r = json.loads(l)
-        n += 1
         v = r["vector"]
+        if leg.get("only_t") and v.get("t") != leg["only_t"]:
+            continue
+        n += 1
         kinds.add((v.get("t"), (v.get("m") or v.get("d") or {}).get("k")))
         if not r["ok"]:
             bad.append(r)
@@ -50,8 +53,8 @@ def wire_vectors(leg, prop, tier, seed, workdir, report):
             for r in bad:
                 f.write(json.dumps(r) + "\n")
         viols.append({"property": prop, "reason": "codec disagrees with Wire.tla on %d vectors, e.g. %s" % (len(bad), "; ".join(bad[0]["problems"])[:200]),
-                      "replay": rp, "leg": "wire_vectors", "seed": "-", "vector": json.dumps(bad[0]["vector"])[:300]})
-    report["legs"].append({"kind": "replay", "name": "wire_vectors", "behaviours": n, "validated": n - len(bad), "distinct_nontrivial": len(kinds),
+                      "replay": rp, "leg": leg["name"], "seed": "-", "vector": json.dumps(bad[0]["vector"])[:300]})
+    report["legs"].append({"kind": "replay", "name": leg["name"], "behaviours": n, "validated": n - len(bad), "distinct_nontrivial": len(kinds),
                            "violations": len(bad), "wall_s": round(dt + dt2, 1), "exhaustive": True,
                            "sample": [json.loads(x) for x in lines[:2]] + [json.loads(lines[-1])]})
     return viols
